@@ -2,7 +2,7 @@
    translators/tr_imports); copied to build/C11/GenZ_TableProps.v by a pre_step and compiled after them. *)
 From Coq Require Import List NArith ZArith Bool.
 From Verif Require Import Common.GoStr C31.Untyped C31.Model C31.Proof C31.Props C11.Model C11.Proof C11.Props.
-Require Import GenTables GenSpec.
+From Gen Require Import GenTables GenSpec.
 Import ListNotations.
 Open Scope N_scope.
 
